@@ -156,26 +156,30 @@ PROPS = {
     "C10": dict(
         level="exploration",
         rule="Interfaces generated from the abi-writable evolution families of the zoo (one exported trait per family version: echo(T)->T, take_ref(&T), "
-             "give()->T, echo_vec(Vec<T>), opt_res(Option<T>)->Result<T,String>). Every ordered pair (caller version i, implementation version j) is connected "
+             "give()->T, echo_vec(Vec<T>), opt_res(Option<T>)->Result<T,String>, via_cb(T, &dyn Fn(T)->T)->T, fut(T)->Pin<Box<dyn Future<Output=T>>>, mk_cb()->Box<dyn Fn(T)->T>). Every ordered pair (caller version i, implementation version j) is connected "
              "with from_boxed_trait_for_test in its own child process; generated values are sent and returned; the argument the implementation records and the "
              "value the caller receives are compared with the reference model's projection through version min(i,j). A hook event per reply checks that the "
-             "caller consumed exactly the reply's bytes. Plus a hand-written interface family for methods present on one side only and incompatible signatures. "
+             "caller consumed exactly the reply's bytes. Every hop of a closure call (argument to the implementation, closure argument back to the caller, closure result, final result) and the output "
+             "of a returned future is compared with the projection through min(i,j). Plus a hand-written interface family for methods present on one side only (also in "
+             "a nested Box<dyn Trait> interface) and seven incompatible signature changes (argument count/type, return type, closure argument/return type, boxed closure "
+             "return type, future output type) that must be rejected at connection time. "
              "distinct_nontrivial = distinct (family, i, j, method, value-class).",
         runs=dict(quick=[dict(build="release", crate="vabi", shards=8), dict(build="debug", crate="vabi", shards=4), dict(build="miri", crate="vabi", shards=13, timeout=900)],
                   thorough=[dict(build="release", crate="vabi", shards=16), dict(build="debug", crate="vabi", shards=16), dict(build="miri", crate="vabi", shards=16, timeout=3000)]),
-        required_counters=dict(quick=dict(arguments_as_expected=500, returns_as_expected=500, cross_version_pairs=10, reply_hook_events=500, incompatible_signature_rejected=3, missing_method_panics_with_name=1)),
+        required_counters=dict(quick=dict(arguments_as_expected=500, returns_as_expected=500, cross_version_pairs=10, reply_hook_events=500, incompatible_signature_rejected=7, missing_method_panics_with_name=2, closure_hops_as_expected=100, future_outputs_as_expected=100, returned_closures_as_expected=100)),
         fresh_zoo=True,
     ),
     "C13": dict(
         level="exploration",
         rule="Schema trees (the harness' own mirror type converted to savefile::Schema): (a) EXHAUSTIVE enumeration of all trees with up to 3 (quick) / 4 (thorough) nodes "
              "over 12 leaf kinds, 7 unary kinds, structs (two annotation variants) and enums (two width/repr variants); (b) random trees up to 60 nodes including trait, "
-             "closure and future nodes; (c) the real schemas of every type under test at every version. Each tree: write+read at format 2 (exact) and 1 (exact modulo "
-             "the method attributes only format 2 stores), read of format-0 bytes produced by an independent encoder (== tree minus layout annotations), "
+             "closure and future nodes; (c) the real schemas of every type under test at every version. Each tree: write+read at formats 2 and 1 (exact; the loss of "
+             "receiver kind / async flag at format 1 is a recorded finding with its own signature), read of format-0 bytes produced by an independent encoder (== tree minus layout annotations), "
              "diff_schema(s,s)==None, and every single wire-relevant mutation at every data node (primitive kind, field/variant added/removed/reordered, variant name, "
-             "discriminant, discriminant width, array length, option/vector wrapping) must be reported in both directions. distinct_nontrivial = distinct trees.",
+             "discriminant, discriminant width, array length, option/vector wrapping) must be reported in both directions; every ordered pair of the 15 fixed-size "
+             "primitive kinds is compared bare and nested (vector element, option, struct field). distinct_nontrivial = distinct trees.",
         runs=dict(quick=[dict(build="release", shards=4)], thorough=[dict(build="release", shards=16), dict(build="debug", shards=8)]),
-        required_counters=dict(quick=dict(enumerated_trees_checked=1000, roundtrip_format2_ok=2000, roundtrip_format1_ok=2000, format0_read_ok=2000, mutation_detected=20000, real_schemas_checked=200)),
+        required_counters=dict(quick=dict(enumerated_trees_checked=1000, roundtrip_format2_ok=2000, roundtrip_format1_ok=2000, format0_read_ok=2000, mutation_detected=20000, real_schemas_checked=200, primitive_pairs_exhaustive=1)),
         exhaustive_counter="enumerated_trees_checked",
         fresh_zoo=True,
     ),
@@ -183,10 +187,13 @@ PROPS = {
         level="exploration",
         rule="Histories of verify_compatiblity runs in fresh temporary directories: unchanged interfaces (plain, &mut self / Pin<&mut Self> receivers with closures and "
              "futures, #[async_trait], Send+Sync) run 2, 3 and 6 times; base -> compatible (+method, reordered) -> breaking (method removed, argument count, argument "
-             "type, return type) sequences; generated interface families (argument/return types evolving over versions) in order, repeated and revisited, and newest-first. "
+             "type, return type) sequences; a richer base (closure, boxed closure, future, method without arguments) with one breaking variant per kind and position "
+             "(first/last method removed, argument appended/removed, last argument type, return types, return/argument type and argument count of closure arguments, "
+             "future output type), each also after a compatible revision was recorded in between; generated interface families (argument/return types evolving over "
+             "versions) in order, repeated and revisited, newest-first, newest from an empty directory repeated, and with version gaps. "
              "Each run's verdict is compared with the step label; recorded files must never change or disappear. distinct_nontrivial = distinct (history, step).",
         runs=dict(quick=[dict(build="release", crate="vabi", shards=4)], thorough=[dict(build="release", crate="vabi", shards=8), dict(build="debug", crate="vabi", shards=8)]),
-        required_counters=dict(quick=dict(ledger_runs=100, compatible_revision_accepted=80, breaking_revision_rejected=8)),
+        required_counters=dict(quick=dict(ledger_runs=300, compatible_revision_accepted=250, breaking_revision_rejected=36)),
         fresh_zoo=True,
     ),
     "C16": dict(
@@ -195,13 +202,15 @@ PROPS = {
              "been used in the process (24 generated interface types per process, each with its own closure-wrapper trait), then call through their own connection and "
              "a shared one: plain calls, calls with a closure argument (the implementation creates a connection for it), boxed trait objects returned, borrowed trait "
              "objects passed in, and an atomic ticket counter on the shared connection. The verif_hooks callback records the order in which threads pass the points inside "
-             "connection creation and injects seeded sleeps/yields between them. Oracles: every result equals the sequential model, tickets are exactly 0..n-1, no panic, "
+             "connection creation and injects seeded sleeps/yields between them. Then, with every interface cached, 8 threads create connections for *different* interfaces in tight "
+             "loops (each result identifies its interface). A probe asks whether AbiConnection<dyn T> is declared Sync for a Send-only interface; if so the shared-"
+             "connection workload is run against a Cell-based implementation. Oracles: every result equals the sequential model, tickets are exactly 0..n-1, no panic, "
              "no deadlock (watchdog + gdb stack dump). distinct_nontrivial = distinct observed orderings of (thread, hook point) events.",
         runs=dict(quick=[dict(build="release", crate="vconc", shards=6), dict(build="tsan", crate="vconc", shards=4),
                          dict(build="miri", crate="vconc", shards=4, timeout=900, env={"MIRIFLAGS": "-Zmiri-disable-isolation -Zmiri-many-seeds=0..4"})],
                   thorough=[dict(build="release", crate="vconc", shards=16), dict(build="tsan", crate="vconc", shards=16),
                             dict(build="miri", crate="vconc", shards=16, timeout=3000, env={"MIRIFLAGS": "-Zmiri-disable-isolation -Zmiri-many-seeds=0..16"})]),
-        required_counters=dict(quick=dict(trials=100, hook_events=20000, template_cache_misses=100, tickets_drawn=10000)),
+        required_counters=dict(quick=dict(trials=100, hook_events=20000, template_cache_misses=100, tickets_drawn=10000, mixed_cached_creations=100000)),
     ),
     "C11": dict(
         level="exploration",
@@ -318,7 +327,7 @@ def build(VERIF, flavor, crate, tier, run, log):
 def prepare_fresh_zoo(verif, seed, log):
     """Thorough tier: generate an additional zoo from VERIF_SEED into vcore/src/zoo_extra.rs."""
     out = os.path.join(verif, "harness", "vcore", "src", "zoo_extra.rs")
-    cmd = ["python3", os.path.join(verif, "gen", "zoo.py"), "--seed", str(1000 + seed), "--types", "120", "--families", "40", "--out", out, "--module", "zoo_extra",
+    cmd = ["python3", os.path.join(verif, "gen", "zoo.py"), "--seed", str(1000 + seed), "--types", "120", "--families", "40", "--out", out, "--module", "zoo_extra", "--no-curated",
            "--abi-out", os.path.join(verif, "harness", "vabi", "src", "fam_gen_extra.rs")]
     p = subprocess.run(cmd, stdout=subprocess.PIPE, stderr=subprocess.STDOUT, text=True)
     if p.returncode != 0:
